@@ -76,6 +76,8 @@ def run_dec_child(cases, vlimit_kb=24_000_000, per_case_timeout=40):
             results[dead["id"]] = "crash:" + err.strip().splitlines()[0][:120] if err.strip() else "crash"
         i += got + 1
         restarts += 1
-        if restarts > 2000:
-            raise L.Fail("correspondence", "decode child keeps dying", err[-2000:])
+        if restarts > 40:
+            # the decoder dies over and over: what was observed so far is already a violation;
+            # the remaining cases are not run (they are absent from the results)
+            break
     return results, restarts
